@@ -162,6 +162,92 @@ def report_items(name, report):
     return out
 
 
+def judge_reports(entries, snaps, v0, v1, data_model, where, label):  # noqa: C901, PLR0912, PLR0913
+    """Compare the notifications one subscriber received (`entries`, wire log) with the snapshots of the versions v0+1..v1."""
+    out = []
+    rich = False
+    reported = {v: set() for v in range(v0 + 1, v1 + 1)}
+    in_descr_report = {v: set() for v in reported}  # entities named by the DescriptionModificationReport(s) of v
+    descr_parts = {v: set() for v in reported}  # descriptor handles of their Crt / Upt parts
+    for e in entries:
+        if e.action is None:
+            continue
+        name, report = parse_notification(data_model, e.request)
+        if name not in ORDERED or report is None:
+            continue
+        v = report.MdibVersion
+        if v not in reported or v not in snaps:
+            out.append((f'{P}/report-version-not-committed/{name}', f'{where}: {name} states MdibVersion {v}, the '
+                                                                    f'operation committed {v0 + 1}..{v1}'))
+            continue
+        snap, prev = snaps[v], snaps.get(v - 1)
+        vg = (report.MdibVersion, report.SequenceId, report.InstanceId)
+        if vg != snap['vg']:
+            out.append((f'{P}/report-version-group/{name}', f'{where}: {name} carries {vg}, committed {snap["vg"]}'))
+        items = report_items(name, report)
+        if len(items) >= 2 or len({i[0] for i in items}) >= 2:
+            rich = True
+        for part, source_mds, mod, kind, handle, content, descr_handle in items:
+            deleted = mod == 'Del'
+            ref = prev if deleted else snap
+            if ref is None:
+                continue
+            if name == 'DescriptionModificationReport':
+                in_descr_report[v].add((kind, handle))
+                if kind == 'd' and not deleted:
+                    descr_parts[v].add(handle)
+            if not deleted:
+                reported[v].add((kind, handle))
+                want = ref[kind].get(handle)
+                if want is None:
+                    out.append((f'{P}/report-names-unknown-entity/{name}', f'{where}: {name} v{v} contains {kind} {handle} '
+                                                                          f'which does not exist at that version'))
+                elif want != content:
+                    d = C.diff(want, content)
+                    out.append((f'{P}/report-content-not-of-its-version/{name}/{kind}',
+                                f'{where}: {name} v{v} {kind} {handle}: {[list(map(str, x)) for x in d[:2]]}'))
+            else:
+                reported[v].add((kind, handle))
+                if handle in snap[kind]:
+                    out.append((f'{P}/report-deletes-existing-entity/{name}', f'{where}: {kind} {handle} is reported as '
+                                                                             f'deleted but exists at v{v}'))
+            mds = ref['mds'].get(descr_handle)
+            if source_mds is not None and mds is not None and source_mds != mds:
+                out.append((f'{P}/wrong-source-mds/{name}', f'{where}: {name} part {part} SourceMds={source_mds} contains '
+                                                            f'{kind} {handle} of MDS {mds}'))
+            if source_mds is None and name != 'WaveformStream' and len(set(snap['mds'].values()) - {None}) > 1:
+                out.append((f'{P}/no-source-mds/{name}', f'{where}: {name} part {part} has no SourceMds in a multi-MDS MDIB'))
+    for v in range(v0 + 1, v1 + 1):
+        if v not in snaps or v - 1 not in snaps:
+            continue
+        prev, snap = snaps[v - 1], snaps[v]
+        changed = changed_keys(prev, snap)
+        # the states of a deleted descriptor disappear with it: the Del part for the descriptor covers them
+        implied = {(k, h) for k, h in changed if k == 's' and h not in snap['s'] and h not in snap['d']}
+        implied |= {(k, h) for k, h in changed if k == 'c' and h not in snap['c'] and prev['cd'].get(h) not in snap['d']}
+        changed -= implied
+        reported[v] -= implied
+        missing = changed - reported[v]
+        extra = reported[v] - changed
+        if missing:
+            k = sorted(missing)[0]
+            out.append((f'{P}/changed-not-reported/{label}/{k[0]}', f'{where}: v{v} changed {sorted(missing)[:4]} but no '
+                                                                    f'report of that version contains them'))
+        if extra:
+            k = sorted(extra)[0]
+            out.append((f'{P}/reported-not-changed/{label}/{k[0]}', f'{where}: v{v} reports contain {sorted(extra)[:4]} '
+                                                                    f'which did not change at that version'))
+        # a description modification report part carries the changed states of its descriptor (BICEPS: a subscriber of
+        # description reports alone must see them), whatever the episodic state reports of the same version contain
+        lost = sorted((k, h) for k, h in changed if k in 'sc' and (k, h) not in in_descr_report[v]
+                      and (h if k == 's' else snap['cd'].get(h)) in descr_parts[v])
+        if lost and not missing:
+            out.append((f'{P}/changed-state-not-in-description-report/{lost[0][0]}',
+                        f'{where}: v{v} created / updated the descriptors {sorted(descr_parts[v])[:4]}; their changed states '
+                        f'{lost[:4]} are not in the DescriptionModificationReport'))
+    return out, rich
+
+
 # ------------------------------------------------------------------------------------------------- part: reports
 class Runner:
     def __init__(self, case):
@@ -214,77 +300,14 @@ class Runner:
         self.judge(op, log0, v0, v1)
         self.judge_store(op)
 
-    def judge(self, op, log0, v0, v1):  # noqa: C901, PLR0912
-        out = self.findings
-        data_model = self.mdib.data_model
-        reported = {v: set() for v in range(v0 + 1, v1 + 1)}
-        where = R.short(op, 160)
-        for e in L.NET.log[log0:]:
-            if e.netloc != self.sink or e.action is None:
-                continue
-            name, report = parse_notification(data_model, e.request)
-            if name not in ORDERED or report is None:
-                continue
-            v = report.MdibVersion
-            if v not in reported or v not in self.snaps:
-                out.append((f'{P}/report-version-not-committed/{name}', f'{where}: {name} states MdibVersion {v}, the '
-                                                                        f'operation committed {v0 + 1}..{v1}'))
-                continue
-            snap, prev = self.snaps[v], self.snaps.get(v - 1)
-            vg = (report.MdibVersion, report.SequenceId, report.InstanceId)
-            if vg != snap['vg']:
-                out.append((f'{P}/report-version-group/{name}', f'{where}: {name} carries {vg}, committed {snap["vg"]}'))
-            items = report_items(name, report)
-            if len(items) >= 2 or len({i[0] for i in items}) >= 2:
-                self.rich = True
-            for part, source_mds, mod, kind, handle, content, descr_handle in items:
-                deleted = mod == 'Del'
-                ref = prev if deleted else snap
-                if ref is None:
-                    continue
-                if not deleted:
-                    reported[v].add((kind, handle))
-                    want = ref[kind].get(handle)
-                    if want is None:
-                        out.append((f'{P}/report-names-unknown-entity/{name}', f'{where}: {name} v{v} contains {kind} {handle} '
-                                                                              f'which does not exist at that version'))
-                    elif want != content:
-                        d = C.diff(want, content)
-                        out.append((f'{P}/report-content-not-of-its-version/{name}/{kind}',
-                                    f'{where}: {name} v{v} {kind} {handle}: {[list(map(str, x)) for x in d[:2]]}'))
-                else:
-                    reported[v].add((kind, handle))
-                    if handle in snap[kind]:
-                        out.append((f'{P}/report-deletes-existing-entity/{name}', f'{where}: {kind} {handle} is reported as '
-                                                                                 f'deleted but exists at v{v}'))
-                mds = ref['mds'].get(descr_handle)
-                if source_mds is not None and mds is not None and source_mds != mds:
-                    out.append((f'{P}/wrong-source-mds/{name}', f'{where}: {name} part {part} SourceMds={source_mds} contains '
-                                                                f'{kind} {handle} of MDS {mds}'))
-                if source_mds is None and name != 'WaveformStream' and len(set(snap['mds'].values()) - {None}) > 1:
-                    out.append((f'{P}/no-source-mds/{name}', f'{where}: {name} part {part} has no SourceMds in a multi-MDS MDIB'))
-        for v in range(v0 + 1, v1 + 1):
-            if v not in self.snaps or v - 1 not in self.snaps:
-                continue
-            prev, snap = self.snaps[v - 1], self.snaps[v]
-            changed = changed_keys(prev, snap)
-            # the states of a deleted descriptor disappear with it: the Del part for the descriptor covers them
-            implied = {(k, h) for k, h in changed if k == 's' and h not in snap['s'] and h not in snap['d']}
-            implied |= {(k, h) for k, h in changed if k == 'c' and h not in snap['c'] and prev['cd'].get(h) not in snap['d']}
-            changed -= implied
-            reported[v] -= implied
-            missing = changed - reported[v]
-            extra = reported[v] - changed
-            if missing:
-                k = sorted(missing)[0]
-                out.append((f'{P}/changed-not-reported/{op[0]}/{k[0]}', f'{where}: v{v} changed {sorted(missing)[:4]} but no '
-                                                                        f'report of that version contains them'))
-            if extra:
-                k = sorted(extra)[0]
-                out.append((f'{P}/reported-not-changed/{op[0]}/{k[0]}', f'{where}: v{v} reports contain {sorted(extra)[:4]} '
-                                                                        f'which did not change at that version'))
+    def judge(self, op, log0, v0, v1):
+        found, rich = judge_reports([e for e in L.NET.log[log0:] if e.netloc == self.sink], self.snaps, v0, v1,
+                                    self.mdib.data_model, R.short(op, 160), op[0])
+        self.findings += found
+        self.rich |= rich
         for what, msg in L.NET.schema_problems:
-            out.append((f'{P}/schema-invalid/{what.split("/")[-1].split(" ")[-1]}', f'{where}: {what}: {msg}'[:400]))
+            self.findings.append((f'{P}/schema-invalid/{what.split("/")[-1].split(" ")[-1]}',
+                                  f'{R.short(op, 160)}: {what}: {msg}'[:400]))
         del L.NET.schema_problems[:]
 
     def judge_store(self, op):
@@ -422,7 +445,13 @@ def run_order(case, default='continue'):
     try:
         consumers = [world.add_consumer(init_mdib=False)[0] for _ in range(case.get('subscribers', 1))]
         sinks = [c[2].netloc for c in world.consumers]
-        mdib.mdib_lock = S.SchedLock(sched, 'mdib_lock')
+        snaps = {mdib.mdib_version: snapshot(mdib)}
+
+        def record(_lock):  # the committing task still holds mdib_lock
+            if mdib.mdib_version not in snaps:
+                snaps[mdib.mdib_version] = snapshot(mdib)
+        v_start = mdib.mdib_version
+        mdib.mdib_lock = S.SchedLock(sched, 'mdib_lock', on_release=record)
         mdib._tr_lock = S.SchedLock(sched, 'tr_lock', reentrant=False, yield_when_free=False,  # noqa: SLF001
                                     yield_after_release=False)
         if not case['async']:
@@ -469,7 +498,13 @@ def run_order(case, default='continue'):
                                      f'subscriber {sink} received {name} v{v} after {last[1]} v{last[0]}'))
                     break
                 last = (v, name)
-        _ = (consumers, data_model)
+            if not findings:
+                # truthfulness under concurrency: every report equals the snapshot of the version it states
+                found, _rich = judge_reports([e for e in L.NET.log[log0:] if e.netloc == sink], snaps, v_start,
+                                             mdib.mdib_version, data_model, f'writers {R.short(case["writers"], 200)}',
+                                             'concurrent')
+                findings += [(sig.replace(f'{P}/', f'{P}/order/', 1), detail) for sig, detail in found]
+        _ = consumers
     finally:
         for obj, name, value in saved:
             setattr(obj, name, value)
